@@ -22,36 +22,36 @@ Theorem continue_lowering_correct : forall b s d tr o s' d',
 Proof. exact continue_lowering_correct_lemma. Qed.
 
 Definition ex_c : block :=
-  BCons (SWhile (CUser 1) (BCons (SAtom 2) (BCons (SIf (CUser 3) (BCons SContinue BNil) BNil) (BCons (SAtom 4) (BCons (SAtom 5) BNil)))) BNil) BNil.
+  BCons (SWhile (CUser 1) (BCons (SAtom 4) (BCons (SIf (CUser 3) (BCons SContinue BNil) BNil) (BCons (SAtom 8) (BCons (SAtom 10) BNil)))) BNil) BNil.
 Example ex_c_lowered : fst (fst (cont_block (cflag 0) 1 false false ex_c)) =
-  BCons (SWhile (CUser 1) (BCons (SSet 4 false) (BCons (SAtom 2) (BCons (SIf (CUser 3) (BCons (SSet 4 true) BNil) BNil)
-     (BCons (SIf (CNot 4) (BCons (SAtom 4) (BCons (SAtom 5) BNil)) BNil) BNil)))) BNil) BNil.
+  BCons (SWhile (CUser 1) (BCons (SSet 4 false) (BCons (SAtom 4) (BCons (SIf (CUser 3) (BCons (SSet 4 true) BNil) BNil)
+     (BCons (SIf (CNot 4) (BCons (SAtom 8) (BCons (SAtom 10) BNil)) BNil) BNil)))) BNil) BNil.
 Proof. vm_compute. reflexivity. Qed.
-Example ex_c_run : exec_block 30 ex_c (fun _ => false) [1; 1; 1; 0] = ([1; 2; 3; 1; 2; 3; 4; 5; 1], ONormal, (fun _ => false), []).
+Example ex_c_run : exec_block 30 ex_c (fun _ => false) [1; 1; 1; 0] = ([1; 4; 3; 1; 4; 3; 8; 10; 1], ONormal, (fun _ => false), []).
 Proof. vm_compute. reflexivity. Qed.
 (* non-vacuity with try: while t1: try: if t2: continue; a3  else: a4  finally: a5 *)
 Definition ex_t : block :=
-  BCons (SWhile (CUser 1) (BCons (STry (BCons (SIf (CUser 2) (BCons SContinue BNil) BNil) (BCons (SAtom 3) BNil)) HNil
-                                      (BCons (SAtom 4) BNil) (BCons (SAtom 5) BNil)) BNil) BNil) BNil.
+  BCons (SWhile (CUser 1) (BCons (STry (BCons (SIf (CUser 2) (BCons SContinue BNil) BNil) (BCons (SAtom 6) BNil)) HNil
+                                      (BCons (SAtom 8) BNil) (BCons (SAtom 10) BNil)) BNil) BNil) BNil.
 Example ex_t_clean : clean_block ex_t = true.
 Proof. vm_compute; reflexivity. Qed.
-Example ex_t_run : exec_block 40 ex_t (fun _ => false) [1; 1; 1; 0; 0] = ([1; 2; 5; 1; 2; 3; 4; 5; 1], ONormal, (fun _ => false), []).
+Example ex_t_run : exec_block 40 ex_t (fun _ => false) [1; 1; 1; 0; 0] = ([1; 2; 10; 1; 2; 6; 8; 10; 1], ONormal, (fun _ => false), []).
 Proof. vm_compute; reflexivity. Qed.
 Example ex_t_lowered_guards_else : fst (fst (cont_block (cflag 0) 1 false false ex_t)) =
   BCons (SWhile (CUser 1) (BCons (SSet 4 false) (BCons (STry
-     (BCons (SIf (CUser 2) (BCons (SSet 4 true) BNil) BNil) (BCons (SIf (CNot 4) (BCons (SAtom 3) BNil) BNil) BNil)) HNil
-     (BCons (SIf (CNot 4) (BCons (SAtom 4) BNil) BNil) BNil) (BCons (SAtom 5) BNil)) BNil)) BNil) BNil.
+     (BCons (SIf (CUser 2) (BCons (SSet 4 true) BNil) BNil) (BCons (SIf (CNot 4) (BCons (SAtom 6) BNil) BNil) BNil)) HNil
+     (BCons (SIf (CNot 4) (BCons (SAtom 8) BNil) BNil) BNil) (BCons (SAtom 10) BNil)) BNil)) BNil) BNil.
 Proof. vm_compute; reflexivity. Qed.
 (* non-vacuity with exceptions: while t1: try: raise r2  except: (if t3: continue); a4   finally: a5 *)
 Definition ex_h : block :=
   BCons (SWhile (CUser 1) (BCons (STry (BCons (SRaise 2) BNil)
-     (HCons (BCons (SIf (CUser 3) (BCons SContinue BNil) BNil) (BCons (SAtom 4) BNil)) HNil) BNil (BCons (SAtom 5) BNil)) BNil) BNil) BNil.
+     (HCons false (BCons (SIf (CUser 3) (BCons SContinue BNil) BNil) (BCons (SAtom 8) BNil)) HNil) BNil (BCons (SAtom 10) BNil)) BNil) BNil) BNil.
 Example ex_h_clean : clean_block ex_h = true.
 Proof. vm_compute; reflexivity. Qed.
-Example ex_h_run : exec_block 40 ex_h (fun _ => false) [1; 0; 1; 1; 0; 0; 0] = ([1; 2; 3; 5; 1; 2; 3; 4; 5; 1], ONormal, (fun _ => false), []).
+Example ex_h_run : exec_block 40 ex_h (fun _ => false) [1; 0; 1; 1; 0; 0; 0] = ([1; 2; 3; 10; 1; 2; 3; 8; 10; 1], ONormal, (fun _ => false), []).
 Proof. vm_compute; reflexivity. Qed.
 Example ex_h_lowered_run :
   let '(tr, o, s, d) := exec_block 60 (fst (fst (cont_block (cflag 0) 1 false false ex_h))) (fun _ => false) [1; 0; 1; 1; 0; 0; 0] in (tr, o, d)
-  = ([1; 2; 3; 5; 1; 2; 3; 4; 5; 1], ONormal, []).
+  = ([1; 2; 3; 10; 1; 2; 3; 8; 10; 1], ONormal, []).
 Proof. vm_compute; reflexivity. Qed.
 Print Assumptions continue_lowering_correct.
